@@ -16,6 +16,21 @@ import progs as P, mach
 from progs import S, Q, STR
 
 
+def nested_source_programs():
+    from progs import SRC
+    leaves = [[S("car"), 5], [S("error"), Q(S("my-cond")), STR("boom")], S("unbound-zz"), [S("car"), 1, 2], [5, 1], [S("boom")], [S("set!"), S("never-bound"), 1],
+              [S("funcall"), Q(S("car")), 1, 2]]
+    out = []
+    for leaf in leaves:
+        texts = [[leaf], [1, leaf], [[S("list"), 2, leaf]], [[S("progn"), leaf, 3]], [[S("load-string"), SRC([leaf])]], [[S("list"), 1, [S("load-string"), SRC([7, leaf])]]]]
+        for t in texts:
+            call = [S("load-string"), SRC(t)]
+            out.append([[S("defun"), S("outer"), [S("x")], [S("list"), S("x"), call]], [S("probe"), Q(S("r")), [S("outer"), 1]]])
+            out.append([[S("list"), 1, call]])
+            out.append([[S("handler-bind"), [[S("condition"), [S("lambda"), [S("c"), S("&rest"), S("r")], [S("capture")], [S("rethrow")]]]], [S("progn"), 0, call]]])
+    return out
+
+
 def run(tier):
     V = Verdict("C18", tier)
     work = Work("C18")
@@ -41,6 +56,15 @@ def _run(V, work, tier):
         recs.append(rec)
         drv.append({"id": i, "seq": srcs, "cfg": {}})
         poss.append(pos)
+    # failing forms inside a NESTED source text (load-string): the error carries the position inside that text - also
+    # when the failing form is the very first thing in it (offset 0) - and the frames below it keep theirs
+    for forms in nested_source_programs():
+        i = len(recs)
+        rec, srcs, pos = mach.prog_with_layout(i, [forms], {}, None, rnd)
+        recs.append(rec)
+        drv.append({"id": i, "seq": srcs, "cfg": {}})
+        poss.append(pos)
+    n = len(recs)
     model, res = mach.run_machine(work, recs, timeout=3300)
     V.tlc(res, "Machine: %d failing-program candidates with random layout" % n)
     if res.violated:
@@ -63,7 +87,7 @@ def _run(V, work, tier):
         err = re_["err"]
         kinds[err["cond"]] = kinds.get(err["cond"], 0) + 1
         mloc = poss[i].get(me["v"]["i"])
-        rloc = (0, err.get("line"), err.get("col")) if err.get("line") else None
+        rloc = ("load-string" if err.get("file") == "load-string" else 0, err.get("line"), err.get("col")) if err.get("line") else None
         if mloc != rloc:
             V.add(None, "error location differs: %s reported at %s, the failing form is at %s" % (err["cond"], rloc and rloc[1:], mloc and mloc[1:]),
                   {"src": src, "real": rloc, "expected": mloc, "msg": err.get("msg")})
